@@ -313,7 +313,11 @@ fn verif_side_c20() {
             }
         }
         // syntax faults: the location is the offending token
-        for (fi, (pre, bad, post)) in [("let x = ", ";", ""), ("let y = (1 + ", ")", ";"), ("function g( {", "", "")].iter().enumerate() {
+        for (fi, (pre, bad, post)) in [("let x = ", ";", ""), ("let y = (1 + ", ")", ";"), ("function g( {", "", ""),
+                                      ("let z = 1 +", "*", " 2;"), ("let q = `abc ${1 + ", "}", " def`;"), ("class K { m( { } ", "}", ""),
+                                      ("let a = [1, 2", ";", ""), ("ok = ", "=", " 2;"), ("let u = 1 ", "@", " 2;"), ("let v = 08", "x", ";"),
+                                      ("if (ok) { ok = 2; } else ", ")", ";"), ("let o = { a: 1, ", "+", " };"), ("for (let i = 0; i < 3; i++ ", ";", ") {}"),
+                                      ("let f = (a, b) => ", "]", ";"), ("let s = 'x' + \"\u{e9}\u{4e16}\" + ", ")", ";"), ("switch (ok) { case 1: case ", "}", "")].iter().enumerate() {
             if bad.is_empty() {
                 continue;
             }
